@@ -13,6 +13,9 @@ j = d.index("### 10.6", i)
 head = ("### 10.5 Measured bounds (generated from the evidence files of the last run in /verif; machine shared with other work)\n\n"
         "What each model contains is in MANIFEST.json (level text) and in the evidence file (`coverage.models`: one entry per TLC\n"
         "run with its states, transitions, wall time; `coverage.notes`: simulated executions, judged windows, vacuity witnesses).\n\n")
-d = d[:i] + head + "\n".join(rows) + "\n\n" + d[j:]
+old = d[i:j]
+k = old.find("Thorough tier, last complete run")
+keep = old[k:] if k >= 0 else ""
+d = d[:i] + head + "\n".join(rows) + "\n\n" + keep + d[j:]
 open("/verif/DESIGN.md", "w").write(d)
 print(len(rows) - 2, "checks")
